@@ -25,6 +25,9 @@ TOTAL_ENTRIES = {
     "C10": [{"file": r"^src/modular\.rs$", "name": r"reduce_mod|add_mod|mul_mod|pow_mod|inv_mod"}],
     "C13": [{"file": r"^src/log\.rs$", "name": r"checked_log|checked_log2|checked_log10"},
             {"file": r"^src/pow\.rs$", "name": r"checked_pow|overflowing_pow|saturating_pow|wrapping_pow|pow"}],
+    "C15": [{"file": r"^src/algorithms/(mul|add|ops|shift|mod)\.rs$",
+             "name": r"addmul|addmul_n|mul_nx1|addmul_nx1|submul_nx1|add_nx1|adc_n|sbb_n|adc|sbb|carrying_add|borrowing_sub|"
+                     r"shift_left_small|shift_right_small|cmp|join|add|mul|muladd|muladd2|high|low|split"}],
     "C16": [{"file": r"^src/support/(alloy_rlp|fastrlp_03|fastrlp_04)\.rs$", "name": r"length|encode"},
             {"file": r"^src/support/rlp\.rs$", "name": r"rlp_append"},
             {"file": r"^src/support/scale\.rs$", "name": r"size_hint|using_encoded|max_encoded_len|encode_as"},
